@@ -20,8 +20,12 @@ Print Assumptions C13_all_protected.
 
 (* The table regenerated from the real gin engine on this run: for each of the 16
    duplicate-free service lists, Engine.Routes() is exactly the model's route set,
-   and every route x every bad-token kind (absent, garbage, alg none, HS256, RS512
-   with a foreign key, RS256 with the right key, no Bearer prefix) was answered 401. *)
+   and every route x every mode (router built before the NRF registration sets
+   OAuth2Required, as at start-up; flag set before the router is built; flag set and
+   no NRF certificate configured) x every bad-token kind (absent, garbage, alg none,
+   HS256, RS512 with a foreign key, RS256 with the right key, no Bearer prefix) was
+   answered 401 with no handler behind the check run (a probe during which a handler
+   wrote, a subscriber context changed or a notification left is tabled as 1000+status). *)
 Theorem C13_routes_agree_and_probes_401 : violations observed = [] /\ List.length observed = 16%nat.
 Proof. vm_compute. split; reflexivity. Qed.
 Print Assumptions C13_routes_agree_and_probes_401.
